@@ -261,12 +261,14 @@ Lemma start_eta t p k h : start t p k h = (fst (start t p k h), snd (start t p k
 Proof. destruct (start t p k h); reflexivity. Qed.
 
 (* stepping tactic: compute the step for a known stack *)
+Ltac stp_rw :=
+  repeat (match goal with H : ?c = _ |- context [match ?c with _ => _ end] => rewrite H end).
 Ltac stp Hk :=
   erewrite step_eq; [| rewrite <- Hk; cbn [kstep ksched ret cret app got kloop];
     try change ((ST_RUNNING =? ST_WAITING) || (ST_RUNNING =? ST_DONE) || (ST_RUNNING =? ST_SAVING)) with false;
     try change ((ST_SAVING =? ST_WAITING) || (ST_SAVING =? ST_DONE) || (ST_SAVING =? ST_SAVING)) with true;
-    cbv iota; unfold kloop;
-    repeat (match goal with H : ?c = _ |- context [match ?c with _ => _ end] => rewrite H end);
+    cbv iota; unfold kloop; stp_rw;
+    cbn [kstep ksched ret cret app got kloop]; unfold kloop; stp_rw;
     try (match goal with H : release ?a ?b = _ |- _ => rewrite H end);
     try (match goal with |- context [start ?a ?b ?c ?d] =>
            let x := fresh "st0" in set (x := start a b c d); rewrite (surjective_pairing x); subst x end);
